@@ -197,7 +197,9 @@ func List(field string, vals ...Value) *Node {
 }
 
 // Group is field:( E ).
-func Group(field string, e *Node) *Node { return &Node{Kind: KGroup, Field: Word(field), Kids: []*Node{e}} }
+func Group(field string, e *Node) *Node {
+	return &Node{Kind: KGroup, Field: Word(field), Kids: []*Node{e}}
+}
 
 // And, Or, Not, Must, MustNot, Fuzzy, Boost build operator nodes.
 func And(a, b *Node) *Node  { return &Node{Kind: KAnd, Kids: []*Node{a, b}} }
@@ -425,13 +427,13 @@ func needParens(parent, child *Node, side int) bool {
 
 // Style selects the concrete spelling.
 type Style struct {
-	FullParens bool         // parenthesise every operator operand
-	Extra      map[*Node]int // extra redundant parenthesis pairs around these nodes
-	WrapAll    int          // redundant pairs around the whole query
-	WrapValue  map[*Node]int // redundant pairs around the value of a KField/KCmp... (field's value)
-	WrapArg    map[*Node]int // redundant pairs around the amount of a ~ / ^ node
-	Tight      bool         // drop optional spaces
-	WS         func() string // whitespace run generator (nil => single space)
+	FullParens bool                   // parenthesise every operator operand
+	Extra      map[*Node]int          // extra redundant parenthesis pairs around these nodes
+	WrapAll    int                    // redundant pairs around the whole query
+	WrapValue  map[*Node]int          // redundant pairs around the value of a KField/KCmp... (field's value)
+	WrapArg    map[*Node]int          // redundant pairs around the amount of a ~ / ^ node
+	Tight      bool                   // drop optional spaces
+	WS         func() string          // whitespace run generator (nil => single space)
 	Lower      func(kw string) string // keyword spelling (nil => upper case)
 }
 
